@@ -614,7 +614,7 @@ impl Prop for C06 {
         bases(tier).len() as u64 * SHARDS
     }
     fn wall_budget_s(&self, tier: Tier) -> u64 {
-        tier.pick(900, 4 * 3600)
+        tier.pick(1800, 4 * 3600)
     }
     fn cpu_limit_s(&self, tier: Tier) -> u64 {
         tier.pick(10, 30)
